@@ -300,8 +300,8 @@ def judge(lib, items, positional=True, what="the returned library"):
             return "%s: the wrapped duplicate is %s" % (at, _show(inner)), None
         if it["kind"] == "entry":
             if [[f.key, f.value] for f in inner.fields] != [[f[0], f[1]] for f in it["fields"]] or inner.entry_type != it["type"]:
-                return ("%s: the wrapped duplicate is not the complete duplicate as written: %s, source fields %r" %
-                        (at, _show(inner), [[f[0], f[1]] for f in it["fields"]])), None
+                return ("%s: the wrapped duplicate is not the complete duplicate as written: @%s %s, source @%s with fields %r" %
+                        (at, inner.entry_type, _show(inner), it["type"], [[f[0], f[1]] for f in it["fields"]])), None
         elif inner.value != it["value"]:
             return "%s: the wrapped duplicate is not the duplicate as written: %s, source value %r" % (at, _show(inner), it["value"]), None
         if inner.raw != it["raw"] or inner.start_line != it["line"]:
